@@ -1,3 +1,9 @@
 // Pasted into misc/webrtc-utils/src/stream.rs (mod verif) under cfg(kani).
 #[allow(unused_imports)]
 use super::*;
+
+pub(crate) mod c56s {
+    #[allow(unused_imports)]
+    use super::super::*;
+    include!(concat!(env!("LIBP2P_VERIF"), "/units/C56/stream.rs"));
+}
